@@ -42,6 +42,8 @@ fn strategy(tier: Tier) -> BoxedStrategy<CrashCase> {
             }
             d = d.next_day().unwrap(); k += 1;
         }
+        // (a few observations early in the following year, for runs that happen then)
+        for k in 1..20 { let d = ymd(year + 1, 1, 1) + Duration::days(k); if !matches!(d.weekday(), Weekday::Saturday | Weekday::Sunday) { cal.days.insert(d, Obs::Published(format!("{}.{:04}", if year + 1 >= 2017 { 0 } else { 1 }, 5000 + 37 * k as u32))); } }
         // "today" of the interrupted run: so that about `nrows` rows are written
         let mut today = ymd(year, 1, 1) + Duration::days(nrows.min(365) as i64);
         let mut requested = today - Duration::days(1 + (req % 9) as i64);
@@ -249,6 +251,56 @@ fn check(c: &CrashCase, obs: &mut O) -> Verdict {
         crate::engine::heartbeat();
     }
     if two_crash > 0 { obs.class("two-crash:left-over-temporary-file-then-second-interrupted-write"); }
+    // ---- other-year variant: the interrupted write of this year is followed by a COMPLETE run that only needs ANOTHER year (it happens
+    // the following January and looks up a January date); whatever the first run left behind must still not be taken for this year's rates
+    let mut other_year = 0u64;
+    if c.today.year() == c.year {
+        let jan_today = ymd(c.year + 1, 1, 25);
+        let jan_lookup = ymd(c.year + 1, 1, 12);
+        let after = jan_today + Duration::days(3);
+        let ref_calls2 = Rc::new(RefCell::new(BTreeMap::new()));
+        let mut lref2 = RateLoader::new(false, Box::new(acb::fx::io::InMemoryRatesCache::new()), Box::new(CountingRemote { cal: cal.clone(), cutoff: after, calls: ref_calls2.clone() }), WriteHandle::empty_write_handle());
+        let mut ref2: BTreeMap<Date, Option<(Date, rust_decimal::Decimal)>> = BTreeMap::new();
+        for b in (total.saturating_sub(30)..total).filter(|b| *b > 0) {
+            let _ = std::fs::remove_dir_all(&dir);
+            let _ = std::fs::create_dir_all(&dir);
+            { let mut first_of: BTreeMap<u64, std::path::PathBuf> = BTreeMap::new(); for (n, bts, ino) in &template_files { match first_of.get(ino) { Some(orig) if *ino != 0 => { let _ = std::fs::hard_link(orig, dir.join(n)); } _ => { let _ = std::fs::write(dir.join(n), bts); first_of.insert(*ino, dir.join(n)); } } } for (n, t) in &template_links { let _ = std::os::unix::fs::symlink(t, dir.join(n)); } }
+            acb::util::date::set_todays_date_for_test(c.today);
+            set_crash_point(Some(CrashPoint::AfterBytes(b)));
+            let calls = Rc::new(RefCell::new(BTreeMap::new()));
+            let r = std::panic::catch_unwind(std::panic::AssertUnwindSafe(|| { let mut l = loader(&dir, &cal, c.today, &calls); l.blocking_get_effective_usd_cad_rate(c.requested) }));
+            set_crash_point(None);
+            if let Err(e) = r { if e.downcast_ref::<SimulatedCrash>().is_none() { let _ = std::fs::remove_dir_all(&dir); return Verdict::Fail(format!("unexpected panic while writing the cache at byte {b}")); } }
+            // the complete run of the following January
+            acb::util::date::set_todays_date_for_test(jan_today);
+            { let calls_j = Rc::new(RefCell::new(BTreeMap::new())); let mut lj = loader(&dir, &cal, jan_today, &calls_j); let _ = guard(|| lj.blocking_get_effective_usd_cad_rate(jan_lookup)); }
+            let _ = take_step_log();
+            // and a run after it that asks for this year again
+            acb::util::date::set_todays_date_for_test(after);
+            let calls3 = Rc::new(RefCell::new(BTreeMap::new()));
+            let mut l3 = loader(&dir, &cal, after, &calls3);
+            let text = String::from_utf8_lossy(&std::fs::read(dir.join(format!("rates-{}.csv", c.year))).unwrap_or_default()).to_string();
+            let mut dates_present: Vec<Date> = text.lines().filter_map(|l| l.split(',').next().and_then(crate::gen::parse_date)).collect();
+            dates_present.sort(); dates_present.dedup();
+            let mut looks: Vec<Date> = dates_present.iter().rev().take(3).cloned().collect();
+            looks.push(c.requested);
+            for d in looks {
+                if let Ok(Ok(r)) = guard(|| l3.blocking_get_effective_usd_cad_rate(d)) {
+                    let want = ref2.entry(d).or_insert_with(|| match guard(|| lref2.blocking_get_effective_usd_cad_rate(d)) { Ok(Ok(w)) => Some((w.date, w.foreign_to_local_rate)), _ => None }).clone();
+                    let wrong = match want { Some((wd, wr)) => wd != r.date || wr != r.foreign_to_local_rate, None => c.cal.published(r.date) != Some(r.foreign_to_local_rate) };
+                    if wrong {
+                        let tail: String = text.chars().rev().take(60).collect::<String>().chars().rev().collect();
+                        let _ = std::fs::remove_dir_all(&dir);
+                        return known_or_fail("F-14a", format!("cache write of {} interrupted after {b} of {total} bytes, then a complete run in January {} that only needed that year's rates; a later run looking up {d} computes with {} for {}, a run without a cache answers {:?}; {}'s cache file now ends with {:?}", c.year, c.year + 1, r.foreign_to_local_rate, r.date, want, c.year, tail));
+                    }
+                }
+            }
+            other_year += 1;
+            obs.sub_evals += 1;
+            crate::engine::heartbeat();
+        }
+    }
+    if other_year > 0 { obs.class("other-year:interrupted-write-then-a-complete-run-for-the-next-year"); }
     let _ = std::fs::remove_dir_all(&dir);
     for (k, v) in outcomes { obs.class(format!("{k}(x{})", if v > 1000 { ">1000" } else if v > 100 { ">100" } else { "<=100" })); }
     obs.class(format!("steps:{}", steps.join("+")));
@@ -258,7 +310,7 @@ fn check(c: &CrashCase, obs: &mut O) -> Verdict {
 }
 
 pub fn def() -> PropDef {
-    let mut d = PropDef::new("C14", "fault enumeration: for each generated year content (50-366 rows, or a completed year downloaded early in the next one; rates with 1-10 decimals, below and above 1, zero placeholders for unpublished days) and prior cache state (none / the directory exactly as an earlier complete run of the product left it, hard links and left-over files included, or with the year's file reached through a symbolic link), a run that downloads the year is interrupted at EVERY byte offset of the cache file write (0..len, via the verif_hooks CrashWriter) and at every named step boundary of the write procedure; after each crash a fresh loader (today + 3 days, remote = published calendar) looks up the last three dates present in the file, the first missing date, the interrupted run's date and 5 random dates. In addition, for the last 60 byte offsets of each content: crash, then a COMPLETE run whose download is a few bytes shorter (the bank no longer reports four early observations, nothing else changes), then the look-ups; and for the last 45 byte offsets: a first write interrupted half way (leaving its temporary file), then the re-download interrupted at that offset, then the look-ups. Violation = a look-up returns a rate that differs from the published rate of the date it carries, or (after a single crash) a rate / date other than a run without any cache directory answers for that look-up. Non-trivial = crash point strictly inside a row (file does not end in a newline). Distinct = distinct (content, crash point).");
+    let mut d = PropDef::new("C14", "fault enumeration: for each generated year content (50-366 rows, or a completed year downloaded early in the next one; rates with 1-10 decimals, below and above 1, zero placeholders for unpublished days) and prior cache state (none / the directory exactly as an earlier complete run of the product left it, hard links and left-over files included, or with the year's file reached through a symbolic link), a run that downloads the year is interrupted at EVERY byte offset of the cache file write (0..len, via the verif_hooks CrashWriter) and at every named step boundary of the write procedure; after each crash a fresh loader (today + 3 days, remote = published calendar) looks up the last three dates present in the file, the first missing date, the interrupted run's date and 5 random dates. In addition, for the last 60 byte offsets of each content: crash, then a COMPLETE run whose download is a few bytes shorter (the bank no longer reports four early observations, nothing else changes), then the look-ups; for the last 30 byte offsets: the interrupted write, then a complete run the following January that only needs the NEXT year's rates, then look-ups of this year; and for the last 45 byte offsets: a first write interrupted half way (leaving its temporary file), then the re-download interrupted at that offset, then the look-ups. Violation = a look-up returns a rate that differs from the published rate of the date it carries, or (after a single crash) a rate / date other than a run without any cache directory answers for that look-up. Non-trivial = crash point strictly inside a row (file does not end in a newline). Distinct = distinct (content, crash point).");
     d.level = "fault_enumeration";
     d.exhaustive = true;
     d.assumptions = vec!["crash model: operations persist in program order (what the hook sees); a filesystem that reorders un-synced writes behind a rename is outside this model", "byte offsets are exhaustive per generated content; contents are sampled"];
